@@ -73,6 +73,15 @@ class World:
         scen['eol'] = rng.choice(['\n', '\n', '\r\n', '\r\n', '\r', ';;\n']) if kind == 'string' else '\n'
         if kind == 'string' and len(scen['eol']) > 1 and rng.random() < 0.4:
             scen['chunk'] = 'eol'
+        # pause before sending (line communicators): data arriving during the pause is stale for the command
+        scen['wait_before'] = rng.choice([0, 0, 0.05, 0.3]) if kind == 'string' else 0
+        if kind == 'string' and rng.random() < 0.15:
+            # an unsolicited line 0.1 s after every second reply: with a pause longer than that it always arrives
+            # before the next command is written.  single commands only (a transaction discards stale input once)
+            scen['fault'] = 'delayed-extra'
+            scen['wait_before'] = rng.choice([0, 0.3, 0.3])
+            scen['chunk'] = None
+            scen['callers'] = [[['comm'] for _ in ops] for ops in callers]
         return scen
 
     # ---------------------------------------------------------------- scripted device
@@ -126,6 +135,13 @@ class World:
                         dev['stale'].append((s.now + 1e9, b'EXTRA' + eolb))
                     if scen['delay']:
                         D.vsleep(scen['delay'])
+                    if fault == 'delayed-extra' and n % 2:
+                        sock.peer_send(reply)
+                        D.vsleep(0.1)
+                        extra = b'EXTRA%d' % n + eolb
+                        sock.peer_send(extra)
+                        dev['stale'].append((s.now, extra))
+                        continue
                     if scen['chunk'] == 'eol':
                         # every terminator is cut in two
                         pieces = reply.split(eolb)
@@ -172,6 +188,8 @@ class World:
             cfg = {'io': {'cls': iocls, 'description': 'communicator', 'uri': 'tcp://devhost:5001', 'timeout': {'value': TIMEOUT}, 'pollinterval': {'value': 3}}}
             if scen['kind'] == 'string' and scen.get('eol', '\n') != '\n':
                 cfg['io']['end_of_line'] = scen['eol']
+            if scen.get('wait_before'):
+                cfg['io']['wait_before'] = {'value': scen['wait_before']}
             node = self.nodes.Node(cfg, testonly=False).build()
             io = node.secnode.modules['io']
             info['io'] = io
@@ -259,7 +277,8 @@ class World:
                     if sent is not None and ts < sent - 1e-9:
                         return 'C16/stale-data-returned-as-reply'
                     return None
-            if scen['fault'] == 'late-reply' or (scen['fault'] == 'trailing-extra' and scen['chunk']):
+            if scen['fault'] == 'late-reply' or (scen['fault'] == 'trailing-extra' and scen['chunk']) or \
+                    (scen['fault'] == 'delayed-extra' and scen.get('wait_before', 0) < 0.2):
                 return None       # knock-on effect of data arriving after a command was written (later replies are shifted by one)
             return 'C16/reply-of-another-command'
         if len(got) != len(want):
@@ -274,7 +293,7 @@ class World:
             r.count('faulted_runs')
         if scen['chunk']:
             r.count('chunked_runs')
-        if scen['fault'] in ('late-reply', 'garbage'):
+        if scen['fault'] in ('late-reply', 'garbage', 'delayed-extra'):
             r.count('stale_data_runs')
         if s.status in ('watchdog', 'budget'):
             r.count('runs_set_aside_' + s.status)
